@@ -143,6 +143,9 @@ def tlc(module, cfg, metadir, workers=8, env=None, timeout=1800, extra=(), cover
     e = dict(os.environ)
     # trace validators run many at a time (one worker each): bound their heaps; model-checking runs get more
     e["JAVA_TOOL_OPTIONS"] = "-Xss1g -Xmx3g" if workers == 1 else "-Xss1g -Xmx12g"
+    tmpd = os.path.join(os.path.dirname(os.path.abspath(metadir)), "jtmp")     # TLC leaves an empty tlc-* directory per run in java.io.tmpdir
+    os.makedirs(tmpd, exist_ok=True)
+    e["JAVA_TOOL_OPTIONS"] += " -Djava.io.tmpdir=" + tmpd
     if env:
         e.update({k: str(v) for k, v in env.items()})
     cmd = ["timeout", str(timeout), "tlc", "-workers", str(workers), "-metadir", metadir, "-cleanup", "-noGenerateSpecTE",
@@ -214,7 +217,7 @@ def _validate_file(args):
     return path, r
 
 
-LENIENT = {"CMP_H": "0", "CMP_O": "0", "CMP_P": "0", "CMP_E": "0", "CMP_V": "0"}
+LENIENT = {"CMP_H": "0", "CMP_O": "0", "CMP_P": "0", "CMP_E": "0", "CMP_V": "0", "CMP_G": "0", "CMP_C": "0"}
 
 
 def flags(**on):
@@ -421,6 +424,22 @@ def toy_traces(chk, curve, kind, n, flags, what, cfgname="Trace", name=None, pro
         chk.count_case([curve, p["p"], p.get("v"), p.get("tamper")], nontrivial=len(p["p"]["ops"]) > 0)
     if progs:
         chk.sample({"curve": curve, "program": progs[min(3, len(progs) - 1)], "outcome": sums[min(3, len(sums) - 1)]})
+    return progs, sums, rej
+
+
+def session_traces(chk, curve, n, fl, what, seed_off=0):
+    """Library sessions on a toy curve: generator tables with a history on both sides (new, increase_capacity, clone, serialise +
+    deserialise, aggregated views), prove, to_bytes, tampering on the proof object or on the bytes, from_bytes, verify - validated
+    against Library.tla through Trace.tla (TraceGens, TraceEncode, TraceWireBytes, TraceDecodeB, GensBound)."""
+    name = "session_%s" % curve
+    progs = genprogs(chk, chk.seed + seed_off, n, TOY_P[curve], "session", name)
+    tp, sums = record(chk, curve, progs, name)
+    acc, rej = validate_traces(chk, tp, curve, flags=fl)
+    report_rejects(chk, rej, what)
+    for p in progs:
+        chk.count_case([curve, p["p"].get("gh"), p["v"].get("gh"), p.get("btamper"), p.get("tamper"), p["p"]["ops"]])
+    chk.sample({"curve": curve, "session": {"prover_table": progs[0]["p"].get("gh"), "verifier_table": progs[0]["v"].get("gh"),
+                                            "byte_tamper": progs[0].get("btamper")}, "outcome": sums[0]})
     return progs, sums, rej
 
 
